@@ -12,7 +12,7 @@ import json
 import os
 
 from ..facts import peel, strip_casts, show, walk, cond_atom
-from .common import callee_short, field_of, assigned_target, const_int, local_ref
+from .common import callee_short, field_of, base_of, assigned_target, const_int, local_ref
 from . import gates as G
 
 LEVEL = "other"
@@ -240,6 +240,7 @@ def run(ctx):
 
     # ------------------------------------------------------------ R02.4
     constness_predicates(ctx)
+    mirrored_slots(ctx)
 
 
 def _canon_arm(db, f, stmts, label):
@@ -333,4 +334,75 @@ def constness_predicates(ctx):
             ctx.ob("R02.4", "%s|%s" % (short, lab), got == ("self", sub, fld), f.loc(arms[lab][0]) if arms.get(lab) else f.loc(),
                    "a %s wrapper is looked through: %s" % (sub, got))
     ctx.floor("R02.4", "constness predicate arms", n, 8)
+
+
+
+
+def mirrored_slots(ctx):
+    """R02.5: Python 3 has no nb_divide; write_module_class mirrors a non-integer operator/ (and operator/=) into
+    nb_true_divide (nb_inplace_true_divide).  One piece of code builds both mirrors, so the wrapper kind - plain binary
+    vs in-place, which decides whether `x /= y` returns self - must be taken from the slot being mirrored."""
+    db = ctx.db
+    ctx.rule("R02.5", "a slot entry synthesised under a computed slot name (the true-divide mirrors) takes its _wrapper_type from the entry it mirrors, never a constant; the in-place mirror name is chosen exactly for the in-place source slot")
+    f = db.fn("InterfaceMakerPythonNative::write_module_class")
+    n = 0
+    for st in f.walk():
+        if st.get("k") != "decls":
+            continue
+        for d in st["d"]:
+            if "SlottedFunctionDef" not in d.get("t", "") or "&" in d.get("t", "") or "*" in d.get("t", ""):
+                continue
+            # assignments through this local
+            loc_name = wt = None
+            for x in f.walk():
+                t = assigned_target(x)
+                if not t:
+                    continue
+                fl = field_of(t[0]) or ""
+                b = base_of(t[0])
+                if b is None or (local_ref(b) or {}).get("d") != d["d"]:
+                    continue
+                if fl.endswith("_answer_location"):
+                    loc_name = (x, t[1])
+                if fl.endswith("_wrapper_type"):
+                    wt = (x, t[1])
+            if loc_name is None or wt is None:
+                continue
+            src = strip_casts(peel(loc_name[1]))
+            while src is not None and src.get("k") == "ctor" and len([q for q in src.get("a", []) if q.get("k") != "defarg"]) == 1:
+                src = strip_casts(peel(src["a"][0]))
+            if src is None or src.get("k") == "str":
+                continue        # a fixed slot: R02.1 judges its wrapper kind against the table
+            n += 1
+            rhs = strip_casts(peel(wt[1]))
+            ok = rhs is not None and rhs.get("k") == "mem" and rhs.get("n", "").endswith("SlottedFunctionDef::_wrapper_type")
+            if not ok and rhs is not None and rhs.get("k") == "cond":
+                # (key == "nb_inplace_divide") ? WT_inplace_binary_operator : WT_binary_operator
+                c = G.cmp_atom(peel(rhs.get("c")))
+                lits = [y.get("v") for y in walk(rhs["c"]) if y.get("k") == "str"]
+                arm = lambda a: (strip_casts(peel(a)) or {}).get("n", "").split("::")[-1]
+                if c and c[0] in ("==", "!=") and len(lits) == 1 and "divide" in lits[0]:
+                    inplace_when_true = ("inplace" in lits[0]) == (c[0] == "==")
+                    t_arm, e_arm = arm(rhs["x"]), arm(rhs["y"])
+                    ok = {t_arm, e_arm} == {"WT_inplace_binary_operator", "WT_binary_operator"} and (("inplace" in t_arm) == inplace_when_true)
+            ctx.ob("R02.5", "write_module_class|%s|wrapper-type-of-mirrored-slot" % d["n"], ok, f.loc(wt[0]),
+                   "`%s` for a slot whose name is computed (`%s`): %s" % (show(wt[0]), show(loc_name[0])[:50], "copied from the mirrored entry" if ok else "a fixed wrapper kind cannot be right for both the plain and the in-place mirror"))
+    ctx.floor("R02.5", "slot entries synthesised under a computed name", n, 1)
+    # the in-place mirror name goes with the in-place source slot
+    pairs = []
+    for x in f.walk():
+        if x.get("k") == "if":
+            c = G.cmp_atom(peel(x.get("c")))
+            if c and c[0] == "==":
+                lits = [y.get("v") for y in walk(x["c"]) if y.get("k") == "str"]
+                then_l = [y.get("v") for y in walk(x.get("then") or {}) if y.get("k") == "str"]
+                else_l = [y.get("v") for y in walk(x.get("else") or {}) if y.get("k") == "str"]
+                if lits in (["nb_inplace_divide"], ["nb_divide"]) and (then_l or else_l):
+                    pairs.append((x, lits[0], then_l, else_l))
+    for x, lit, then_l, else_l in pairs:
+        want_then = "nb_inplace_true_divide" if lit == "nb_inplace_divide" else "nb_true_divide"
+        want_else = "nb_true_divide" if lit == "nb_inplace_divide" else "nb_inplace_true_divide"
+        ok = then_l == [want_then] and else_l == [want_else]
+        ctx.ob("R02.5", "write_module_class|true-divide-mirror-names", ok, f.loc(x), "key == %s -> %s, else %s" % (lit, then_l, else_l))
+    ctx.floor("R02.5", "mirror-name selections", len(pairs), 1)
 
